@@ -24,6 +24,13 @@
    db = [st : "none" | "open" | "closed", ok : successfulCompletion, cwd : the .h5 exists in the working directory,
          snaps : sequence of [c, n, lab, val, at] in group-name order]  (val = the reactor state stored; at = Len(log) then)
 
+     Restart    a second run (phase 2) restarted from the file the first run left in the working directory -- completed, or
+                aborted (then at the node of the failure): case settings loadStyle = fromDB, reloadDBName = that file,
+                startCycle / startNode = the restart point.  MainInterface.interactBOL then calls
+                DatabaseInterface.prepRestartRun: mergeHistory(reload file, startCycle, startNode) into the fresh database,
+                loadState(previous node) -- the reactor continues from the stored state -- and, when startNode = 0,
+                interactAllEOC for the previous cycle (each "f" interface changes the state once more).
+
    All single failures: Fail is enabled at every dispatch of a hook of an "f" interface (before and after the database
    interface in the stack, at BOL / BOC / EveryNode / Coupled / EOC / EOL of every cycle and node), once per run.
 
@@ -39,11 +46,15 @@
      reactor state as it was when the hook failed (a failing hook changes nothing).
    * "every node": the nodes of the nested loop from the start point (CycleArithmeticDefs!VisitFrom);
      "the end-of-life state": the snapshot labelled "EOL" under the last node.
+   * "merging history for a restart copies exactly the requested steps, unchanged": the restarted run's file begins with
+     every snapshot of the reload file strictly before the restart point (labelled ones included), with the values the
+     first run stored; the restarted run then adds its own nodes, so a completed restart from a complete (or aborted)
+     file holds every node of the history.  Failures inside the nested end-of-cycle dispatch of the restart are not modelled.
 *)
 EXTENDS Operator
 
-VARIABLES roles, db, val, crash
-rvars == <<roles, db, val, crash>>
+VARIABLES roles, db, val, crash, phase, src, crash1
+rvars == <<roles, db, val, crash, phase, src, crash1>>
 allvars == <<vars, rvars>>
 
 NoConfigs == {}
@@ -77,10 +88,25 @@ DbI == CHOOSE i \in 1..Len(roles) : roles[i] = "db"
 RInitWith(steps, sc, sn, stack, tight) ==
     /\ InitWith(RunCfg(steps, sc, sn, stack, tight))
     /\ roles = stack /\ db = NoDb /\ val = 0 /\ crash = NoCrash
+    /\ phase = 1 /\ src = <<>> /\ crash1 = NoCrash
+
+(* ---------- restart ---------- *)
+NodeLess(c1, n1, c2, n2) == c1 < c2 \/ (c1 = c2 /\ n1 < n2)
+\* mergeHistory(reload file, startCycle, startNode): everything strictly before the restart point
+MergedFrom(file, sc, sn) == SelectSeq(file, LAMBDA s : NodeLess(s.c, s.n, sc, sn))
+Merged == IF phase = 2 THEN [k \in 1..Len(MergedFrom(src, cfg.sc, cfg.sn)) |-> [MergedFrom(src, cfg.sc, cfg.sn)[k] EXCEPT !.at = 0 - 1]]
+          ELSE <<>>
+NumF == Cardinality({i \in 1..Len(roles) : roles[i] = "f"})
+\* loadState(previous node) [+ interactAllEOC when the restart point is the first node of a cycle]
+RestartVal ==
+    LET pv == PrevNode(cfg.steps, cfg.sc, cfg.sn)
+        k == CHOOSE j \in 1..Len(src) : src[j].c = pv[1] /\ src[j].n = pv[2] /\ src[j].lab = "" IN
+    src[k].val + (IF cfg.sn = 0 THEN NumF ELSE 0)
 
 (* ---------- what the hook of interface i does at the current event ---------- *)
 HookEffect(i) ==
-    CASE roles[i] = "main" /\ pc = "BOL" -> db' = OpenDb /\ val' = val
+    CASE roles[i] = "main" /\ pc = "BOL" /\ phase = 1 -> db' = OpenDb /\ val' = val
+      [] roles[i] = "main" /\ pc = "BOL" /\ phase = 2 -> db' = [OpenDb EXCEPT !.snaps = Merged] /\ val' = RestartVal
       [] roles[i] = "db" /\ pc = "BOL"   -> db' = (IF db.st = "none" THEN OpenDb ELSE db) /\ val' = val
       [] roles[i] = "db" /\ pc = "EN" /\ ~cfg.tight -> db' = WriteSnap(db, "") /\ val' = val
       [] roles[i] = "db" /\ pc = "EOL"   -> db' = Closed(WriteSnap(db, "EOL"), TRUE) /\ val' = val
@@ -90,17 +116,34 @@ HookEffect(i) ==
 RCall == /\ Running /\ Call
          /\ lastc'.cv = TRUE                    \* environment: the couplers report convergence at once (cap = 1 anyway)
          /\ HookEffect(Head(queue))
-         /\ UNCHANGED <<roles, crash>>
+         /\ UNCHANGED <<roles, crash, phase, src, crash1>>
 RDbWrite == /\ Running /\ DbWrite
             /\ db' = WriteSnap(db, "")
-            /\ UNCHANGED <<roles, val, crash>>
+            /\ UNCHANGED <<roles, val, crash, phase, src, crash1>>
 RControl == Running /\ Control /\ UNCHANGED rvars
 Fail == /\ Running /\ pc \in Events /\ queue # <<>> /\ roles[Head(queue)] = "f"
         /\ crash' = [e |-> pc, i |-> Head(queue), c |-> rc, n |-> rn, it |-> (IF pc = "CPL" THEN iter ELSE None),
                      open |-> db.st = "open"]
         /\ db' = ErrorHook(db)
-        /\ UNCHANGED <<vars, roles, val>>
+        /\ UNCHANGED <<vars, roles, val, phase, src, crash1>>
+\* Operator!InitWith for the next state (TLC cannot assign through a primed operator application); RestartIsInit checks that
+\* the two agree
+ReInit(c) ==
+    /\ cfg' = c /\ pc' = "Start" /\ cycle' = c.sc /\ node' = c.sn /\ iter' = 0 /\ queue' = <<>> /\ halt' = FALSE /\ conv' = TRUE
+    /\ rc' = c.sc /\ rn' = c.sn /\ ci' = 0 /\ sl' = NoRef /\ pw' = NoRef /\ log' = <<>>
+    /\ evs' = <<>> /\ cvs' = <<>> /\ called' = <<>> /\ lastc' = NoCall /\ haltedAt' = None /\ haltReq' = <<>>
+RestartIsInit == (phase = 2 /\ pc = "Start") => InitWith(cfg)
+\* the second run: a fresh operator and reactor built from the input, restart settings pointing at the file of the first run
+Restart(sc, sn) ==
+    /\ phase = 1 /\ cfg.sc = 0 /\ cfg.sn = 0 /\ db.cwd /\ roles[1] = "main"
+    /\ <<sc, sn>> \in Nodes(cfg.steps) /\ <<sc, sn>> # <<0, 0>>
+    /\ \/ pc = "Done" /\ Running                                         \* from a completed run: any later node
+       \/ ~Running /\ crash.open /\ sc = crash.c /\ sn = crash.n            \* from an aborted run: the node of the failure
+    /\ ReInit(RunCfg(cfg.steps, sc, sn, roles, cfg.tight))
+    /\ phase' = 2 /\ src' = db.snaps /\ crash1' = crash
+    /\ roles' = roles /\ db' = NoDb /\ val' = 0 /\ crash' = NoCrash
 RNext == RControl \/ RCall \/ RDbWrite \/ Fail
+RNextR == RNext \/ \E cn \in Nodes(cfg.steps) : Restart(cn[1], cn[2])
 
 (* ---------- the clauses ---------- *)
 KeyOf(s) == <<s.c, s.n, s.lab>>
@@ -113,6 +156,9 @@ FCallsUpTo(m) == Cardinality({j \in 1..m : log[j].i >= 1 /\ roles[log[j].i] = "f
 AllNodes == LET v == VisitFrom(cfg.steps, cfg.sc, cfg.sn) IN {v[k] : k \in 1..Len(v)}
 LastNode == LET v == VisitFrom(cfg.steps, cfg.sc, cfg.sn) IN v[Len(v)]
 Finalised == \E j \in 1..Len(log) : log[j].e = "EOL" /\ log[j].i = DbI
+\* what a restarted run inherits (once its database is open)
+MergedKeys == IF db.st = "none" THEN {} ELSE {KeyOf(Merged[k]) : k \in 1..Len(Merged)}
+NodeKeys(S) == {<<pr[1], pr[2], "">> : pr \in S}
 
 RTypeOK == /\ db.st \in {"none", "open", "closed"} /\ db.ok \in BOOLEAN /\ db.cwd \in BOOLEAN /\ val \in Nat
            /\ \A k \in 1..Len(db.snaps) : db.snaps[k].lab \in {"", "EOL", "error"}
@@ -123,7 +169,7 @@ RTypeOK == /\ db.st \in {"none", "open", "closed"} /\ db.ok \in BOOLEAN /\ db.cw
 AbortedRunLeavesFile ==
     (~Running /\ crash.open) =>
         /\ db.st = "closed" /\ db.cwd /\ ~db.ok
-        /\ DbKeys = {<<pr[1], pr[2], "">> : pr \in WrittenNodes} \cup {<<crash.c, crash.n, "error">>}
+        /\ DbKeys = MergedKeys \cup NodeKeys(WrittenNodes) \cup {<<crash.c, crash.n, "error">>}
         /\ SnapAt(crash.c, crash.n, "error").val = val
         /\ crash.c = rc /\ crash.n = rn
 \* aborted outside the window
@@ -134,19 +180,31 @@ AbortedOutsideWindow ==
 CompletedRunIsSuccessful ==
     pc = "Done" =>
         /\ Running /\ db.st = "closed" /\ db.cwd /\ db.ok
-        /\ DbKeys = {<<pr[1], pr[2], "">> : pr \in AllNodes} \cup {<<LastNode[1], LastNode[2], "EOL">>}
+        /\ DbKeys = MergedKeys \cup NodeKeys(AllNodes) \cup {<<LastNode[1], LastNode[2], "EOL">>}
 FinalisedFileIsComplete ==
     (db.st = "closed" /\ db.ok) =>
         /\ Finalised
-        /\ DbKeys = {<<pr[1], pr[2], "">> : pr \in AllNodes} \cup {<<LastNode[1], LastNode[2], "EOL">>}
+        /\ DbKeys = MergedKeys \cup NodeKeys(AllNodes) \cup {<<LastNode[1], LastNode[2], "EOL">>}
+\* a completed restart holds every node of the whole history: the nodes before the restart point come from the reload file
+RestartHoldsWholeHistory ==
+    (phase = 2 /\ pc = "Done") => NodeKeys(Nodes(cfg.steps)) \subseteq DbKeys
+\* "copies exactly the requested steps, unchanged": the inherited snapshots are those of the reload file strictly before the
+\* restart point, with the stored state of the first run
+MergedUnchanged ==
+    (phase = 2 /\ db.st # "none") =>
+        \A k \in 1..Len(db.snaps) :
+            db.snaps[k].at < 0 <=> (\E j \in 1..Len(src) : /\ KeyOf(src[j]) = KeyOf(db.snaps[k]) /\ src[j].val = db.snaps[k].val
+                                                          /\ NodeLess(src[j].c, src[j].n, cfg.sc, cfg.sn)
+                                                          /\ db.snaps[k].at < 0)
 \* every snapshot holds the reactor state as of its write: the number of state changes made before it
 SnapshotsHoldStateAtWrite ==
-    \A k \in 1..Len(db.snaps) : db.snaps[k].val = FCallsUpTo(db.snaps[k].at)
+    \A k \in 1..Len(db.snaps) : db.snaps[k].at >= 0 =>
+        db.snaps[k].val = FCallsUpTo(db.snaps[k].at) + (IF phase = 2 THEN RestartVal ELSE 0)
 \* not successful until the clean close; in the working directory iff closed
 MarkAndPlace == (db.ok => db.st = "closed" /\ Finalised) /\ (db.cwd <=> db.st = "closed")
 \* while the run is going the file holds exactly the nodes written so far
 RunningFileHoldsWrittenNodes ==
-    (Running /\ db.st = "open") => DbKeys = {<<pr[1], pr[2], "">> : pr \in WrittenNodes}
+    (Running /\ db.st = "open") => DbKeys = MergedKeys \cup NodeKeys(WrittenNodes)
 
 FileView == [exists |-> db.cwd, ok |-> db.ok,
              snaps |-> [k \in 1..Len(db.snaps) |-> [c |-> db.snaps[k].c, n |-> db.snaps[k].n, lab |-> db.snaps[k].lab,
